@@ -123,13 +123,15 @@ prop("C05",
                 "invariant (a CR LF pair or surrogate pair cut by a read boundary is held back); char() returns the first "
                 "character of the remaining normalised text; unget() puts it back; charsUntil() returns the maximal run "
                 "(loop invariant; quick tier: three representative character sets, thorough: all thirteen the tokenizer "
-                "passes); reset() re-initialises every field a parse writes.",
+                "passes); reset() re-initialises every field a parse writes. BufferedStream (the rewind buffer put around byte streams "
+                "that cannot seek): read/seek/tell against the abstract view 'bytes delivered so far + position' with the "
+                "representation invariant, explored for buffers of 0..3 chunks and every position (bounded stand-in, not counted).",
      level_note="Trusted: pyvc, z3/cvc5. Assumed lemmas about str.replace-based newline normalisation (split_safe, "
                 "norm_basics in spec/stream.py), exercised natively; the library contract of re match for a one-class-plus "
                 "pattern. Not decided in this revision: line/column positions (position/_position), the per-chunk "
-                "invalid-codepoint error positions (known finding), byte streams (BufferedStream, codecs incremental decoding "
-                "assumed chunk-independent), termination of the charsUntil loop.",
-     not_decided=["position()/_position arithmetic", "BufferedStream and byte-level decoding", "termination of charsUntil"],
+                "invalid-codepoint error positions (observed, outside every obligation), byte-level decoding (the codecs "
+                "incremental decoders are assumed chunk-independent), termination of the charsUntil loop.",
+     not_decided=["position()/_position arithmetic", "byte-level decoding (codec stream readers)", "termination of charsUntil"],
      explanation="the stream class is proved against the same contract text the tokenizer proofs assume")
 
 
